@@ -208,6 +208,21 @@ func (iv *Intervals) same(a, b ssa.Value) bool {
 			return true
 		}
 	}
+	// go/ssa does no common-subexpression elimination: "len(s)-i" written
+	// twice is two instructions. Arithmetic on the same operands is the same
+	// value (operands are SSA values; both instructions dominate the point of
+	// use, so no operand phi is re-evaluated between them without both being
+	// re-evaluated too).
+	ba, okA := a.(*ssa.BinOp)
+	bb, okB := b.(*ssa.BinOp)
+	if okA && okB && ba.Op == bb.Op {
+		switch ba.Op {
+		case token.ADD, token.SUB, token.MUL, token.QUO, token.REM, token.AND, token.OR, token.XOR, token.SHL, token.SHR, token.AND_NOT:
+			if iv.same(ba.X, bb.X) && iv.same(ba.Y, bb.Y) {
+				return true
+			}
+		}
+	}
 	if iv.Equal != nil && iv.Equal(a, b) {
 		return true
 	}
